@@ -11,6 +11,7 @@ import (
 	"os"
 	"path/filepath"
 	"sort"
+	"strings"
 	"testing"
 	"time"
 
@@ -58,6 +59,27 @@ func TestC19(t *testing.T) {
 		f.Close()
 	}
 	fromTLC := len(progs)
+	allQuiet := map[int]bool{} // programs that run quietly on every cluster shape
+	if beh := os.Getenv("VERIF_BEH_ALL"); beh != "" {
+		f, err := os.Open(beh)
+		if err != nil {
+			t.Fatal(err)
+		}
+		sc := bufio.NewScanner(f)
+		sc.Buffer(make([]byte, 1<<20), 1<<24)
+		for sc.Scan() {
+			var p []isoStep
+			if err := json.Unmarshal([]byte(sc.Text()), &p); err != nil {
+				t.Fatal(err)
+			}
+			if len(p) < 2 {
+				continue
+			}
+			allQuiet[len(progs)] = true
+			progs = append(progs, p)
+		}
+		f.Close()
+	}
 	dmaps := []string{"ab", "a"}
 	keys := []string{"c", "bc", "k1", "n"}
 	for i := 0; i < envInt("VERIF_C19_RANDOM", 0); i++ {
@@ -100,8 +122,29 @@ func TestC19(t *testing.T) {
 			t.Fatal(err)
 		}
 		allKeys := append(append([]string{}, keys...), "lk")
+		var embedded []Path
+		for _, p := range paths {
+			if dp, ok := p.(*dmapPath); ok && strings.HasPrefix(dp.Name(), "emb@") {
+				embedded = append(embedded, p)
+			}
+		}
 		observe := func(after string) {
 			for _, d := range dmaps {
+				st := map[string]bool{}
+				for _, m := range c.Live() {
+					for p := uint64(0); p < 7; p++ {
+						for _, kind := range []partitions.Kind{partitions.PRIMARY, partitions.BACKUP} {
+							for _, e := range m.V.DMap.VerifEntries(d, p, kind) {
+								st[e.Key] = true
+							}
+						}
+					}
+				}
+				stored := []string{}
+				for k := range st {
+					stored = append(stored, k)
+				}
+				sort.Strings(stored)
 				gets := []trace.Ev{}
 				for _, k := range allKeys {
 					p := paths[rng.Intn(len(paths))]
@@ -131,26 +174,11 @@ func TestC19(t *testing.T) {
 					it.Close()
 				}
 				sort.Strings(scan)
-				st := map[string]bool{}
-				for _, m := range c.Live() {
-					for p := uint64(0); p < 7; p++ {
-						for _, kind := range []partitions.Kind{partitions.PRIMARY, partitions.BACKUP} {
-							for _, e := range m.V.DMap.VerifEntries(d, p, kind) {
-								st[e.Key] = true
-							}
-						}
-					}
-				}
-				stored := []string{}
-				for k := range st {
-					stored = append(stored, k)
-				}
-				sort.Strings(stored)
 				w.Emit(trace.Ev{"t": "obs", "d": d, "gets": gets, "scan": scan, "stored": stored, "after": after})
 			}
 		}
 		for pi, prog := range progs {
-			if pi%len(cfgs) != ci && fromTLC > 40 {
+			if pi%len(cfgs) != ci && fromTLC > 40 && !allQuiet[pi] {
 				continue // large exported sets are spread over the cluster shapes
 			}
 			seq++
@@ -164,8 +192,14 @@ func TestC19(t *testing.T) {
 			locks := map[string]Locked{}
 			both := false
 			touched := map[string]bool{}
-			for _, st := range prog {
+			// a quiet sequence runs through long-lived embedded handles only and is observed once at its end:
+			// reads between the operations would themselves touch every member
+			quiet := pi%3 == 2 || allQuiet[pi]
+			for si, st := range prog {
 				p := paths[rng.Intn(len(paths))]
+				if quiet {
+					p = embedded[rng.Intn(len(embedded))]
+				}
 				sum.Paths[p.Name()]++
 				var rep Reply
 				v := st.V
@@ -205,7 +239,13 @@ func TestC19(t *testing.T) {
 						rep.Ret = "ok"
 					}
 				case "destroy":
-					switch rng.Intn(3) {
+					x := rng.Intn(3)
+					if quiet {
+						x = 3
+					}
+					switch x {
+					case 3:
+						rep = classify(p.(*dmapPath).Destroy(ctx, st.D))
 					case 0:
 						dm, _ := c.Members[rng.Intn(cf.N)].DB.NewEmbeddedClient().NewDMap(st.D)
 						rep = classify(dm.Destroy(ctx))
@@ -226,7 +266,9 @@ func TestC19(t *testing.T) {
 					both = true
 				}
 				w.Emit(trace.Ev{"t": "op", "op": st.Op, "d": st.D, "k": st.K, "v": v, "ret": rep.Ret, "detail": rep.Err, "path": p.Name()})
-				observe(st.Op + " on " + st.D)
+				if !quiet || si == len(prog)-1 {
+					observe(st.Op + " on " + st.D)
+				}
 			}
 			sum.Histories++
 			if both {
